@@ -144,7 +144,7 @@ func cmdCheck(args []string) {
 	}
 	for _, k := range keys {
 		ct := P.cs.ByKey[k]
-		tagged := hasTag(ct.Safety, want) || hasTag(ct.AssignsTags, want)
+		tagged := hasTag(ct.Safety, want) || hasTag(ct.AssignsTags, want) || hasTag(ct.ImplTags, want)
 		for _, cl := range ct.Clauses {
 			if hasTag(cl.Tags, want) {
 				tagged = true
